@@ -155,13 +155,22 @@ func c20gsub(r *rand.Rand, n int) (*gtab.Info, []c20rule, *c20shape) {
 	sub41 := func() gtab.Subtable {
 		first := map[glyph.ID][]gtab.Ligature{}
 		firstSet := map[glyph.ID]bool{}
-		for k := 1 + r.IntN(4); k > 0; k-- {
+		family := r.IntN(3) == 0 // several ligatures with the same first glyph, longer ones first
+		var prevA glyph.ID
+		for k, k0 := 1+r.IntN(4), true; k > 0; k, k0 = k-1, false {
 			a := gid()
+			if family && !k0 {
+				a = prevA
+			}
+			prevA = a
 			lig := gtab.Ligature{Out: gid()}
 			if r.IntN(3) == 0 {
 				lig.Out = popular
 			}
 			m := 1 + r.IntN(2)
+			if family {
+				m = max(1, 3-r.IntN(3)) // 3, 2 or 1 further components
+			}
 			if r.IntN(8) == 0 {
 				m = 0 // a "ligature" of one glyph
 			}
@@ -562,7 +571,12 @@ func runC20(c *mon.Ctx) {
 					k.Fail("mismatch", "unexplained-name", "glyph %d got the name %q which is neither given, nor a glyph-list name of a mapped code point, nor derived from a rule, nor a placeholder; list=%q (%s)", i, list[i], list, desc)
 					return
 				}
-				k.Class("source:substitution-chain")
+				// names never change once they are assigned, so whichever rule named
+				// this glyph saw the final names of its inputs: the name must be
+				// those names joined by "_" (ligature) or the input's name (variant),
+				// with an optional ".<n>" to make it unique
+				k.Fail("mismatch", "derived-name-matches-no-rule", "glyph %d got the name %q; no rule that produces it has inputs whose names give that name; list=%q (%s)", i, list[i], list, desc)
+				return
 			}
 		}
 		if shape.glyph0In {
